@@ -27,7 +27,7 @@ import os
 import re
 from collections import OrderedDict
 
-from harness import common, iolib
+from harness import common, iolib, histlib
 from harness.common import Case, req, ok, enc_str, fmt_pbc, fmt_pbcs
 from harness.iolib import (enc_opt, enc_header, enc_names, enc_cnf, enc_pbcs, fmt_text, py_lex, tmpname, read_raw)
 
@@ -45,7 +45,9 @@ ASSUMPTIONS = ["the token-level theorems speak about token rows; text -> rows is
                "(Props/C12/Text.lean: opb_text_roundtrip, numbers up to 4300 digits) and for the LaTeX writer's own output "
                "(Props/C12/LatexText.lean: latex_text_lex, latex_text_rows_*; names without white space); the lexers on other texts are compared, not proven",
                "typographic meaning of the LaTeX (alignment blanks, what \\overline covers) is not part of any theorem"]
-NOTES = ["D14 (fixed 81c9102): header value / label with a line break -> non-comment line in the OPB file; corpus cls linebreak keeps exercising it",
+NOTES = ["D46-s6 (known finding): to_file(..., 'latex') raises KeyError for a formula whose header has no 'description' entry (the user deleted it "
+         "or replaced the header); str(F) and the DIMACS / OPB writers cope; corpus cls nodescription keeps exercising it",
+         "D14 (fixed 81c9102): header value / label with a line break -> non-comment line in the OPB file; corpus cls linebreak keeps exercising it",
          "D31 (fixed 47b0608): LaTeX omitted every coefficient <= 1, so a zero coefficient was shown as 1; corpus cls zerocoef keeps exercising it",
          "D30 (fixed 8a26dc4): guess_output_format raised TypeError for a file object whose .name is an int; corpus cls fdname"]
 
@@ -55,6 +57,9 @@ def is_opb(F):
 
 
 def make_formula(info):
+    if info["src"] == "hist":
+        # ONE formula object with a history: grown step by step and looked at on the way (harness/histlib.py)
+        return histlib.play(info["steps"])
     if info["src"] == "cli":
         F = iolib.cli_formula(info.get("tool", "cnfgen"), info["argv"], info.get("seed", 0))
         if F is None:
@@ -78,6 +83,18 @@ def make_formula(info):
     if info.get("hdr") is not None:
         F.header = OrderedDict((k, v) for k, v in info["hdr"])
     return F
+
+
+def reference(F, info):
+    """the CURRENT content: the object itself, or (history) a twin built by the same growth steps and never looked at"""
+    return histlib.twin(info["steps"]) if info["src"] == "hist" else F
+
+
+def changed_by_looking(F, R):
+    if R is not F and (F.number_of_variables(), items_of(F)) != (R.number_of_variables(), items_of(R)):
+        return {"looking_at_the_formula_changed_it": [F.number_of_variables(), items_of(F)[:20]],
+                "same_steps_never_observed": [R.number_of_variables(), items_of(R)[:20]]}
+    return None
 
 
 def enc_any(F):
@@ -114,9 +131,10 @@ def build_wopb(info):
     u = bool(info.get("u", False))
     eh = bool(info.get("export_header", True))
     ev = bool(info.get("export_varnames", False))
-    hdr = header_of(F)
-    names = ["{}".format(x) for x in F.all_variable_labels()] if ev else []
-    r = req("wopb", u, enc_any(F), enc_opt(hdr if eh else None, enc_header), enc_opt(names if ev else None, enc_names))
+    R = reference(F, info)
+    hdr = header_of(R)
+    names = ["{}".format(x) for x in R.all_variable_labels()] if ev else []
+    r = req("wopb", u, enc_any(R), enc_opt(hdr if eh else None, enc_header), enc_opt(names if ev else None, enc_names))
     state = {}
 
     def impl():
@@ -137,6 +155,8 @@ def build_wopb(info):
         text = state.get("text")
         if text is None:
             return {"writer_raised_on_a_legal_formula": True}
+        if changed_by_looking(F, R):
+            return changed_by_looking(F, R)
         n, cons = iolib.opb_expected(F)
         got = iolib.indep_opb(text, u)
         if got[0] != "ok":
@@ -196,11 +216,12 @@ def build_wlatex(suite, info):
     F = make_formula(info)
     if F is None:
         return None
-    names = latex_names(F)
+    R = reference(F, info)
+    names = latex_names(R)
     agree = "1" if clean(names) else "-"
     state = {}
     if suite == "wlatex":
-        r = req("wlatex", enc_any(F), enc_names(names))
+        r = req("wlatex", enc_any(R), enc_names(names))
         split, compact = -1, True
 
         def impl():
@@ -209,7 +230,7 @@ def build_wlatex(suite, info):
             return ok(agree + " " + fmt_text(text))
     elif suite == "wlatexbody":
         split, compact = int(info["split"]), bool(info["compact"])
-        r = req("wlatexbody", enc_any(F), enc_names(names), split, compact)
+        r = req("wlatexbody", enc_any(R), enc_names(names), split, compact)
 
         def impl():
             out = io.StringIO()
@@ -219,12 +240,12 @@ def build_wlatex(suite, info):
     else:
         eh = bool(info.get("export_header", True))
         extra = info.get("extra", "")
-        hdr = header_of(F)
+        hdr = header_of(R)
         split, compact = 35, False
-        r = req("wlatexdoc", enc_any(F), enc_names(names), enc_header(hdr), eh, enc_str(extra))
+        r = req("wlatexdoc", enc_any(R), enc_names(names), enc_header(hdr), eh, enc_str(extra))
         kind = "constraints" if is_opb(F) else "clauses"
         intro = ("\\noindent\\textbf{{Pseudo-boolean formula with {} variables and and {} constraints:}}\n" if is_opb(F)
-                 else "\\noindent\\textbf{{CNF with {} variables and and {} clauses:}}\n").format(F.number_of_variables(), len(F))
+                 else "\\noindent\\textbf{{CNF with {} variables and and {} clauses:}}\n").format(R.number_of_variables(), len(R))
 
         def impl():
             if info.get("u"):
@@ -247,11 +268,16 @@ def build_wlatex(suite, info):
             return {"writer_raised_on_a_legal_formula": True}
         if state["body"] is None:
             return {"document_skeleton": state["doc"][:300]}
+        if changed_by_looking(F, R):
+            return changed_by_looking(F, R)
         if not iolib.latex_names_ok(names):
             return None
         return iolib.latex_check_body(state["body"], F, names, split, compact and not is_opb(F))
 
-    return Case(suite, r, impl, oracle, cls=latex_cls(F, names, info), nontrivial=len(F) > 0, info=info)
+    cls = latex_cls(F, names, info)
+    if suite == "wlatexdoc" and "description" not in dict(header_of(R)):
+        cls = "nodescription"        # stable label of finding D46-s6: the document writer needs header['description']
+    return Case(suite, r, impl, oracle, cls=cls, nontrivial=len(F) > 0, info=info)
 
 
 def simple_names(names):
